@@ -19,6 +19,12 @@ class Unsupported(VerifError):
     pass
 
 
+class NotApplicable(Exception):
+    """raised by an (unbounded) proof script whose loop summaries / invariants do not fit the shape of the current code:
+    the script is skipped and reported as such; the property stays decided by the other scripts and bounded stand-ins"""
+    pass
+
+
 class PathInfeasible(Exception):
     pass
 
